@@ -162,8 +162,12 @@ func gsxC10BoolSimplify() {
 	}
 	g := &gsxGen{info: ctx.TypesInfo, num: types.Typ[types.Int]}
 	env := &gsxVals{x: gsxrt.IntRange("x", -64, 64), y: gsxrt.IntRange("y", -64, 64)}
-	if gsxrt.Choose("operandType", 2) == 1 {
+	switch gsxrt.Choose("operandType", 3) {
+	case 1:
 		g.num, env.float = types.Typ[types.Float64], true
+	case 2:
+		// a defined type whose underlying type is float64 (type gsxFloat float64)
+		g.num, env.float = types.NewNamed(types.NewTypeName(token.NoPos, nil, "gsxFloat", nil), types.Typ[types.Float64], nil), true
 	}
 	root := g.boolExpr(gsxrt.Bound("depth", 1))
 	v := gsxrt.Field(gsxrt.Field(c, "fileWalker"), "visitor").(interface{ VisitExpr(ast.Expr) })
